@@ -71,11 +71,14 @@ ResShape(method, shapes, axis, keepdims, nidx) ==
 \*   "refused" : the discretised classes DOCUMENT that they decline the request (explicit ValueError /
 \*               TypeError): a refusal is accepted, a result must still be right
 \*   "any"     : the statement does not fix a product space of that shape; any carrier of the right numbers
+\* (a discretised element given as out= to tensor operands puts the discretised class in charge, so its documented
+\*  refusals apply there as well; its outer additionally insists on discretised INPUTS)
 ResKind(kind, method, outkind, keepdims, fullreduce, mixed) ==
+  LET dk == kind = "discr" \/ outkind = "discr" IN
   IF method = "at" THEN "none"
-  ELSE IF kind = "discr" /\ method = "reduceat" THEN "refused"
-  ELSE IF kind = "discr" /\ method = "reduce" /\ keepdims THEN "refused"
-  ELSE IF kind = "discr" /\ method = "outer" /\ mixed THEN "refused"
+  ELSE IF dk /\ method = "reduceat" THEN "refused"
+  ELSE IF dk /\ method = "reduce" /\ keepdims THEN "refused"
+  ELSE IF dk /\ method = "outer" /\ (mixed \/ kind # "discr") THEN "refused"
   ELSE IF outkind = "element" THEN kind
   ELSE IF outkind # "none" THEN outkind
   ELSE IF method = "reduce" /\ fullreduce /\ ~keepdims THEN "scalar"
@@ -95,6 +98,20 @@ ResDType(name, method, dt, dtkw) ==
   ELSE IF name = "absolute" THEN RealOf(dt)
   ELSE IF method \in {"reduce", "accumulate", "reduceat"} /\ name \in {"add", "multiply"} /\ dt = "int32" THEN "int64"
   ELSE dt
+
+\* The dtype keyword and the out argument (NumPy's own rule): the computation is carried out in dtype= (if
+\* given), the result is then CAST into out (if given) -- so the returned object, which is out itself, has
+\* the dtype of out and holds the value computed in the requested dtype.  outdt = "none": no out argument.
+ResDTypeOut(name, method, dt, dtkw, outdt) ==
+  IF outdt # "none" THEN outdt ELSE ResDType(name, method, dt, dtkw)
+\* the dtype ladder used for "wider" / "narrower" keyword and out dtypes ("n/a": there is none)
+WiderDT(dt) == CASE dt = "bool" -> "int64" [] dt = "int32" -> "int64" [] dt = "int64" -> "float64"
+                 [] dt = "float32" -> "float64" [] dt = "float64" -> "complex128"
+                 [] dt = "complex64" -> "complex128" [] OTHER -> "n/a"
+NarrowerDT(dt) == CASE dt = "int64" -> "int32" [] dt = "float64" -> "float32" [] dt = "complex128" -> "complex64"
+                    [] OTHER -> "n/a"
+RelDT(mode, dt) == CASE mode = "same" -> dt [] mode = "wider" -> WiderDT(dt) [] mode = "narrower" -> NarrowerDT(dt)
+                     [] OTHER -> "none"
 
 (* --------------------------- exact entry functions --------------------- *)
 B01(b) == IF b THEN COne ELSE CZero
